@@ -96,6 +96,10 @@ def run(ctx):
     rd = tlc.rundir()
     try:
         jobs = []
+        # y-scrambling and thread-count sweeps first: a repeating schedule violation must not hide them
+        jobs.append([os.path.join(rd, "y.ndjson"), "yscr", ctx.seed, 2 if q else 8])
+        for i in range(1 if q else 4):
+            jobs.append([os.path.join(rd, "n%d.ndjson" % i), "counts", ctx.seed + i, 9 if q else 18])
         for nw, k, words, total in plans:
             chunk = max(1, (len(words) + 5) // 6)
             for ci in range(0, len(words), chunk):
@@ -104,9 +108,6 @@ def run(ctx):
                     for w in words[ci:ci + chunk]:
                         f.write(" ".join(map(str, w)) + "\n")
                 jobs.append([os.path.join(rd, "t_%d_%d_%d.ndjson" % (nw, k, ci)), "sched", ctx.seed + ci, sf, nw, k])
-        jobs.append([os.path.join(rd, "y.ndjson"), "yscr", ctx.seed, 2 if q else 8])
-        for i in range(1 if q else 4):
-            jobs.append([os.path.join(rd, "n%d.ndjson" % i), "counts", ctx.seed + i, 9 if q else 18])
         res = hrun.run_many(exe, jobs, timeout=2400, workers=10)
         events = []
         for j, h in zip(jobs, res):
